@@ -120,6 +120,9 @@ def run(ctx):
     # ---------------- R4: the cached copy maps section k to section k and changes only the ttl, by subtraction
     _r4(ctx)
 
+    # ---------------- R7: the encoder never folds the case of a name (names are relayed unchanged)
+    _r7(ctx)
+
 
 def _r3(ctx):
     P = ctx.P
@@ -245,3 +248,34 @@ def _r4(ctx):
                     ctx.check(good, "R4", "ttl-copy:rr.%s=unchanged" % f, where,
                               "cached record field `%s` must be copied from the same record, it is %s" % (f, show(v)))
     ctx.floor("R4", "cached-copy obligations", n, 6 + 3 * 5)
+
+
+NORMALISERS = ("eq_ignore_ascii_case", "to_ascii_lowercase", "to_ascii_uppercase", "make_ascii_lowercase", "make_ascii_uppercase",
+               "to_lowercase", "to_uppercase")
+
+
+def _r7(ctx):
+    from ..callgraph import callgraph
+    P = ctx.P
+    cg = callgraph(P)
+    roots = [f for f in P.bodies if f.startswith("erbium::dns::dnspkt::") and f.rsplit("::", 1)[-1] in (
+        "push_compressed_domain", "push_prefix", "push_rr", "push_domain", "serialise_with_size")]
+    ctx.floor("R7", "name emission functions", len(roots), 3)
+    reach = cg.reachable(roots)
+    bad = sorted(n for n in reach if n.rsplit("::", 1)[-1] in NORMALISERS)
+    where = ""
+    for r in roots:
+        b = P.bodies[r]
+        ctx.saw(b)
+        for x in P.family(r):
+            for bb, tm in x.calls():
+                if (callee_name(tm) or "").rsplit("::", 1)[-1] in NORMALISERS:
+                    where = ctx.where(x, tm["sp"])
+    ctx.check(not bad, "R7", "encoder-compares-labels-exactly" if not bad else "encoder-folds-case:%s" % bad[0].rsplit("::", 1)[-1], where,
+              "names must reach the client byte for byte as upstream sent them: the serialiser (including the name-compression "
+              "search) must compare labels exactly; a case-insensitive match makes a name point at an earlier name that differs in "
+              "case, and the client sees the other name's capitalisation (calls: %s)" % (bad or "none"))
+    # Label equality is the derived (bytewise) one
+    impls = [im for im in P.impls if im["self_ty"].endswith("dnspkt::Label") and im["trait"] == "std::cmp::PartialEq"]
+    ctx.check(len(impls) == 1 and impls[0]["auto_derived"], "R7", "label-equality-is-bytewise", "crates/erbium-core/src/dns/dnspkt.rs",
+              "Label's PartialEq must be the derived bytewise comparison")
